@@ -142,7 +142,7 @@ Definition bkt_open (cf : cfg) (hf : bytes -> N) (d : dirstate) : openres :=
                   (match picked with Some t => [t] | None => [] end)
                   (dr_merged d) (dr_ct d) (dr_nextgc d) in
     (* chunks tid.chunk .. : check hints and replay; earlier chunks: check hints only (background goroutine) *)
-    let b1 := fold_left (open_chunk cf hf d tid) (seq (fst tid) (NCH - fst tid)) b0 in
+    let b1 := fold_left (open_chunk cf hf d tid) (seq (fst tid) (S head - fst tid)) b0 in   (* chunks above the head have no data: no-ops *)
     let b2 := fold_left (fun bb i => check_hint cf hf d bb i) (seq 0 (fst tid)) b1 in
     (* checkForDump: only when no tree file is left *)
     let b3 := if (0 <=? md)%Z && (match b_treefiles b2 with [] => true | _ => false end) then dump_htree b2 else b2 in
